@@ -537,6 +537,100 @@ func (c *Ctx) ruleQ5() {
 		dec := newKindInstr("dec:"+cv.Name(), func(in ssa.Instruction) bool { v, d := counterStep(in); return v == cv && d == -1 })
 		// a path on which the queue was found empty took no item: nothing is owed for it
 		dec.cut = queueEmptyCut
+		// a counter kept by table-transition helpers (they look the task up and step the counter
+		// according to what they find and what they store): consistent by construction as long as
+		// every change of the table goes through them — that is what is checked, not the paths
+		if tt := c.findTaskTable(); tt != nil {
+			helpers := map[*ssa.Function]bool{}
+			for _, f := range fns {
+				if c.isTestFile(f.Pos()) || f.Blocks == nil {
+					continue
+				}
+				mut, step, look := false, false, false
+				// the decrement depends on the state the task was found in
+				var stateTests []*ssa.If
+				eachInstr(f, func(in ssa.Instruction) {
+					switch x := in.(type) {
+					case *ssa.MapUpdate:
+						if tt.isTable(x.Map) {
+							mut = true
+						}
+					case *ssa.Lookup:
+						if tt.isTable(x.X) {
+							d := derived([]ssa.Value{x}, flowOpts{})
+							eachInstr(f, func(y ssa.Instruction) {
+								bo, ok := y.(*ssa.BinOp)
+								if !ok || (bo.Op != token.EQL && bo.Op != token.NEQ) {
+									return
+								}
+								_, kx := constInt(bo.X)
+								_, ky := constInt(bo.Y)
+								if !(d[bo.X] && ky) && !(d[bo.Y] && kx) {
+									return
+								}
+								dd := derived([]ssa.Value{bo}, flowOpts{})
+								eachInstr(f, func(z ssa.Instruction) {
+									if iff, ok := z.(*ssa.If); ok && (iff.Cond == ssa.Value(bo) || dd[iff.Cond]) {
+										stateTests = append(stateTests, iff)
+									}
+								})
+							})
+						}
+					case *ssa.Call:
+						if tt.isDelete(x) {
+							mut = true
+						}
+					}
+				})
+				eachInstr(f, func(in ssa.Instruction) {
+					if v, d := counterStep(in); v == cv && d == -1 {
+						step = true
+						for _, iff := range stateTests {
+							for _, sc := range iff.Block().Succs {
+								if branchCovers(sc, in.Block()) {
+									look = true
+								}
+							}
+						}
+					}
+				})
+				if mut && step && look {
+					helpers[f] = true
+				}
+			}
+			if len(helpers) > 0 {
+				k := 0
+				for _, f := range fns {
+					if c.isTestFile(f.Pos()) || f.Blocks == nil || helpers[f] {
+						continue
+					}
+					eachInstr(f, func(in ssa.Instruction) {
+						bare := false
+						switch x := in.(type) {
+						case *ssa.MapUpdate:
+							bare = tt.isTable(x.Map)
+						case *ssa.Call:
+							bare = tt.isDelete(x)
+						}
+						if !bare {
+							return
+						}
+						cons := fmt.Sprintf("%s#counter:%s#table-change-outside-helpers#%d", fnKey(f), cv.Name(), k)
+						k++
+						c.bad("Q5", cons, in.Pos(), fmt.Sprintf("the idle test reads %s, which the table-transition helpers keep equal to the number of active tasks — but this function changes the task table directly: the entry leaves (or changes state) without the count following, the count never returns to zero, load-end never fires again and nothing fetched afterwards is joined", cv.Name()))
+					})
+				}
+				if k == 0 {
+					var hs []string
+					for h := range helpers {
+						hs = append(hs, h.Name())
+					}
+					sort.Strings(hs)
+					c.ok("Q5", "replicator#counter:"+cv.Name()+"#kept-by-transition-helpers", 0, cv.Name()+" is kept by the table-transition helpers ("+strings.Join(hs, ", ")+") and nothing else changes the task table")
+				}
+				continue
+			}
+		}
 		// where is it incremented?
 		var incFns []*ssa.Function
 		for _, f := range fns {
